@@ -632,6 +632,12 @@ def cmd_check(prop, tier, runs, jobs, seed):
         log("HARNESS-ERROR: " + m)
         if exit_code == 0:
             exit_code = 2
+    # scratch directories of C19's file round trips that a dying worker could not remove itself
+    import glob, shutil
+    for d in glob.glob(os.path.join(tempfile.gettempdir(), "simcheck-c19-*")):
+        pid = d.rsplit("-", 1)[-1]
+        if pid.isdigit() and not os.path.exists("/proc/" + pid):
+            shutil.rmtree(d, ignore_errors=True)
     write_evidence(prop, tier, seed, cfg, per_flavour, found, known_hits, known_lines, build_s, time.time() - t0, total_runs)
     main_st = per_flavour[cfg["flavours"][0]]
     log("%s %s tier=%s seed=%d: %d runs, %d distinct non-trivial, %d violations, known-finding matches %s, %.1fs (build %.1fs)" % (
